@@ -310,7 +310,8 @@ func (b *assignmentBuilder) createWithConverter(lhs, rhs bmodel.Node, converter 
 				return nil
 			}
 			argNode, ok = b.castNode(util.DerefPtr(converter.ArgType()), rhsNode)
-			if !ok {
+			if !ok || argNode.AssignExpr() != rhsNode.AssignExpr() {
+				// The address is passed; a conversion or a String() result has none.
 				return nil
 			}
 		}
